@@ -24,12 +24,13 @@ func runC09(r *engine.Run) {
 	r.Rule("DEP-weight", "in the branch arm of insert and delete the value stored to routingNode.weight and the returned weight change both depend on the change returned by the recursive call; in the shared-prefix arm the returned change does")
 	r.Rule("DOM-dirty", "in insert and delete, a store to a hashed field (routingNode.weight/Children[i], shortNode.key/value, valueNode.value/weight) of an object is accompanied by a store dirty=true on the same object that dominates the store or every return reachable after it")
 	r.Rule("DOM-dirty-path", "in insert and delete, an arm that descended into a child and returns its own node marks that node dirty on every such success path: any successful descent may have changed the subtree (a value rewritten in place with equal weight changes neither the child pointer nor the weight), so the cached hashes on the path must be invalidated")
+	r.Rule("WHO-scheduled", "see C11: insert schedules a hash for collection only for the shared-prefix node it splits (the scheduled hash is Hash() of a value of static type *shortNode): a position it overwrites may receive content that hashes as before, and whether the old hash dies is commit's decision under its hash-changed test")
 	r.Rule("ORDER-survivor", "a node whose hash insert/delete schedules for deletion (tempDeleted) is not kept in the new trie on the same path: the hash of a child that is merely re-parented must not be scheduled")
 	r.Rule("DOM-range", "getBlockProof descends into child i only when block <= child.Weight() tested true, and continues the scan with block reduced by that child's weight")
 	r.Rule("DOM-sentinel", "a scan that keeps the number of the only matching slot of an N-slot array in one integer together with constants for 'none'/'several': every such constant lies outside [0,N), and the comparison that leads to the use of the integer as a slot number holds for every slot number and fails for every sentinel (decided by evaluating the comparison over the finite domains)")
 	r.Rule("ERR-guard", "wherever the error of a call is compared with nil and one successor of the test is a plain return block, that successor is the error != nil edge and returns a non-nil error (the error itself, a sentinel or a constructed error); an early return handing back the error on the edge where it is nil is a swapped test")
 	r.Rule("ERR-dropped", "the error result of every repository operation (trie, node store, storage adapter/batcher methods) called here is looked at - compared, returned or stored; deliberate drops are an explicit table with reasons")
-	r.Rule("DEP-linkback", "the node returned by every self-recursive call of insert and delete is stored into the parent (a child slot or the shared-prefix node's value) or returned: a rebuilt subtree is never dropped while the weights above it change")
+	r.Rule("DEP-linkback", "the node returned by every self-recursive call of insert, delete and commit (also when made from a helper that stands for one of their arms) is, on every success path that follows the call, stored into the parent (a child slot or the shared-prefix node's value; a store that is skipped only where the result tested nil counts) or returned: a rebuilt subtree, a resolved child or the hash reference of a collapsed subtree is never dropped while the walk reports success")
 	r.Rule("AGREE-update", "an update in place of an existing value node stores both hashed fields (value bytes and weight) from the payload; the shortcut that skips the update (zero change, same node) is taken only where the bytes tested equal AND the weights tested equal")
 	r.Rule("DOM-memo", "each CalcHash returns the cached hash without recomputing only where the dirty flag tested false, and stores the recomputed hash (the RawHash result) into the hash field")
 	r.Rule("AGREE-endian", "every fixed-width read and write of the weighted trie (hash pre-images, serialised weights, decoders) uses one byte order")
@@ -50,6 +51,7 @@ func runC09(r *engine.Run) {
 	domDirty(r)
 	domDirtyPath(r)
 	orderSurvivor(r, "ORDER-survivor")
+	whoScheduled(r, "WHO-scheduled")
 	domRangeProof(r)
 	var wf []*ssa.Function
 	for _, f := range r.P.RepoFuncs() {
@@ -715,79 +717,155 @@ func shortVal(v ssa.Value) string {
 // subtree that was rebuilt and then forgotten.
 func depLinkBack(r *engine.Run, rule string) {
 	n := 0
+	var fns []*ssa.Function
+	var roots []*ssa.Function
 	for _, name := range []string{"insert", "delete"} {
-		f := wfn(r, rule, name)
-		if f == nil {
+		for _, w := range walks(r, rule, name) {
+			fns = append(fns, w.f)
+			roots = append(roots, w.root)
+		}
+	}
+	if f := wfn(r, rule, "commit"); f != nil {
+		fns = append(fns, f)
+		roots = append(roots, f)
+	}
+	for k, f := range fns {
+		root := roots[k]
+		// index of the node result
+		ni := -1
+		res := root.Signature.Results()
+		for i := 0; i < res.Len(); i++ {
+			if isNodeIfaceW(res.At(i).Type()) && ni < 0 {
+				ni = i
+			}
+		}
+		if ni < 0 {
 			continue
 		}
 		o := ord{}
 		engine.Instrs(f, func(in ssa.Instruction) {
 			c, ok := in.(*ssa.Call)
-			if !ok || c.Call.StaticCallee() != f {
+			if !ok || c.Call.StaticCallee() != root {
 				return
 			}
-			var node ssa.Value
-			for _, ref := range engine.Referrers(c) {
-				if ex, ok := ref.(*ssa.Extract); ok && ex.Index == 1 {
-					node = ex
-				}
-			}
 			n++
-			linked := false
-			if node != nil {
-				seen := map[ssa.Value]bool{}
-				var walk func(v ssa.Value)
-				walk = func(v ssa.Value) {
-					if seen[v] {
-						return
-					}
-					seen[v] = true
-					for _, ref := range engine.Referrers(v) {
-						switch x := ref.(type) {
-						case *ssa.Store:
-							if x.Val == v {
-								linked = true
-							}
-						case *ssa.Return:
-							linked = true
-						case *ssa.Phi:
+			cons := o.next(fn(f) + "|recursive result")
+			node := extractOf(c, ni)
+			if node == nil {
+				r.Fail(rule, cons, r.P.Pos(c.Pos()), "the subtree returned by the recursive call is discarded: the change below this node (a rebuilt child, a hash reference that replaces a collapsed subtree) is lost while weights and hashes above it are updated")
+				return
+			}
+			// values derived from the result, the stores of such values, the returns of such values
+			derived := map[ssa.Value]bool{}
+			var stores []*ssa.Store
+			var walk func(v ssa.Value)
+			walk = func(v ssa.Value) {
+				if derived[v] {
+					return
+				}
+				derived[v] = true
+				for _, ref := range engine.Referrers(v) {
+					switch x := ref.(type) {
+					case *ssa.Store:
+						if x.Val == v {
+							stores = append(stores, x)
+						}
+					case *ssa.Phi:
+						walk(x)
+					case *ssa.MakeInterface:
+						walk(x)
+					case *ssa.TypeAssert:
+						walk(x)
+					case *ssa.Extract:
+						walk(x)
+					case *ssa.FieldAddr:
+						if x.X == v {
 							walk(x)
-						case *ssa.MakeInterface:
-							walk(x)
-						case *ssa.TypeAssert:
-							walk(x)
-						case *ssa.Extract:
+						}
+					case *ssa.UnOp:
+						if x.Op == token.MUL && x.X == v {
 							walk(x)
 						}
 					}
 				}
-				walk(node)
 			}
-			r.Check(linked, rule, o.next(fn(f)+"|recursive result"), r.P.Pos(c.Pos()), "the returned subtree is stored into the parent or returned",
-				"the subtree returned by the recursive call is neither stored into the parent's slot nor returned: the change below this node is lost while weights and hashes above it are updated")
+			walk(node)
+			bad := ""
+			sawReturn := false
+			for _, ret := range engine.Returns(f) {
+				last := ret.Results[len(ret.Results)-1]
+				if !nilConst(last) && !derivedReturn(ret, derived) {
+					continue // error returns
+				}
+				if !engine.ReachableAfter(c, ret) {
+					continue
+				}
+				sawReturn = true
+				if derivedReturn(ret, derived) {
+					continue
+				}
+				linked := false
+				for _, st := range stores {
+					if engine.InstrDominates(st, ret) {
+						linked = true
+						continue
+					}
+					if !engine.ReachableAfter(st, ret) {
+						continue
+					}
+					// a store that is skipped only where the result tested nil
+					if facts, ok := engine.FactsOn(f, st.Block()); ok {
+						for _, ft := range facts {
+							if ft.Kind == "eq" && !ft.Truth && (ft.A == ssa.Value(node) && nilConst(ft.B) || ft.B == ssa.Value(node) && nilConst(ft.A)) {
+								linked = true
+							}
+						}
+					}
+				}
+				if !linked {
+					bad = r.P.Pos(ret.Pos())
+				}
+			}
+			r.Check(bad == "" && sawReturn, rule, cons, r.P.Pos(c.Pos()), "on every success path the returned subtree is stored into the parent (a store that is skipped only where the result is nil counts) or returned",
+				"a success return ("+bad+") is reached after the recursive call without the returned subtree having been stored into the parent's slot or returned: the change below this node (a resolved and rewritten child, a hash reference replacing a collapsed subtree) is lost while the walk reports success")
 		})
 	}
 	if n < 5 {
-		r.Anchor(rule, fmt.Errorf("unresolved anchor: %d recursive calls in insert/delete", n))
+		r.Anchor(rule, fmt.Errorf("unresolved anchor: %d recursive calls in insert/delete/commit", n))
 	}
+}
+
+func derivedReturn(ret *ssa.Return, derived map[ssa.Value]bool) bool {
+	for _, v := range ret.Results {
+		if derived[v] {
+			return true
+		}
+	}
+	return false
 }
 
 // agreeUpdate: an update in place of an existing value replaces both hashed
 // fields of the value node (the bytes and the weight) from the payload.
 func agreeUpdate(r *engine.Run, rule string) {
-	f := wfn(r, rule, "insert")
-	if f == nil {
+	ws := walks(r, rule, "insert")
+	if len(ws) == 0 {
 		return
 	}
-	payload := paramRole(f, "value")
-	if payload == nil {
+	if ws[0].value == nil {
 		r.Anchor(rule, fmt.Errorf("unresolved anchor: payload parameter of insert"))
 		return
 	}
-	// stores into fields of a *valueNode that is not the payload itself
+	f := ws[0].f
+	// stores into fields of a *valueNode that is not the payload itself (in insert
+	// or in a helper that stands for one of its arms)
 	byObj := map[ssa.Value]map[string]bool{}
 	var where = map[ssa.Value]ssa.Instruction{}
-	engine.Instrs(f, func(in ssa.Instruction) {
+	for _, w := range ws {
+	payload := w.value
+	if payload == nil {
+		continue
+	}
+	engine.Instrs(w.f, func(in ssa.Instruction) {
 		st, ok := in.(*ssa.Store)
 		if !ok {
 			return
@@ -813,6 +891,7 @@ func agreeUpdate(r *engine.Run, rule string) {
 		byObj[fa.X][name] = true
 		where[fa.X] = st
 	})
+	}
 	n := 0
 	for obj, set := range byObj {
 		n++
@@ -830,10 +909,12 @@ func agreeUpdate(r *engine.Run, rule string) {
 // equal. A shortcut keyed on the bytes alone drops an update that changes only
 // the weight.
 func domNoChange(r *engine.Run, rule string) {
-	f := wfn(r, rule, "insert")
-	if f == nil {
-		return
+	for _, w := range walks(r, rule, "insert") {
+		domNoChangeIn(r, rule, w.f)
 	}
+}
+
+func domNoChangeIn(r *engine.Run, rule string, f *ssa.Function) {
 	isWeight := func(v ssa.Value) bool {
 		for {
 			if cv, ok := v.(*ssa.Convert); ok {
@@ -884,4 +965,80 @@ func domNoChange(r *engine.Run, rule string) {
 			fmt.Sprintf("the shortcut that skips an update in place is taken without comparing both hashed fields (bytes equal tested: %v, weights equal tested: %v): an update that changes only the weight is ignored, so the total weight no longer equals the sum of the live weights", bytesEq, weightEq))
 	}
 	_ = n
+}
+
+// whoScheduled: insert schedules a hash for collection (tempDeleted) only for a
+// node it removes structurally - the shared-prefix node it splits. A position it
+// overwrites (a value, a collapsed reference) may receive content that hashes
+// exactly as before (an identical re-put); whether the old hash dies is decided
+// by commit, under its "hash changed" test (DOM-unchanged). Scheduling the hash
+// of an overwritten position at insert time collects a node the new trie still
+// refers to once two collection passes have run.
+func whoScheduled(r *engine.Run, rule string) {
+	n := 0
+	for _, w := range walks(r, rule, "insert") {
+		f := w.f
+		o := ord{}
+		engine.Instrs(f, func(in ssa.Instruction) {
+			st, ok := in.(*ssa.Store)
+			if !ok {
+				return
+			}
+			fld := engine.FieldOf(st.Addr)
+			if fld == nil || fld.Name() != "tempDeleted" {
+				return
+			}
+			ap, ok := st.Val.(*ssa.Call)
+			if !ok {
+				return
+			}
+			if b, isB := ap.Call.Value.(*ssa.Builtin); !isB || b.Name() != "append" || len(ap.Call.Args) < 2 {
+				return
+			}
+			// the appended elements: a varargs array filled with hashes
+			var elems []ssa.Value
+			if sl, ok := ap.Call.Args[1].(*ssa.Slice); ok {
+				if al, ok := sl.X.(*ssa.Alloc); ok {
+					for _, ref := range engine.Referrers(al) {
+						if ia, ok := ref.(*ssa.IndexAddr); ok {
+							for _, r2 := range engine.Referrers(ia) {
+								if s2, ok := r2.(*ssa.Store); ok && s2.Addr == ssa.Value(ia) {
+									elems = append(elems, s2.Val)
+								}
+							}
+						}
+					}
+				}
+			}
+			if len(elems) == 0 {
+				elems = append(elems, ap.Call.Args[1])
+			}
+			for _, e := range elems {
+				n++
+				kind := "a value of unknown origin"
+				good := false
+				if c, ok := stripConv(e).(*ssa.Call); ok {
+					var recv ssa.Value
+					if c.Call.IsInvoke() {
+						recv = c.Call.Value
+					} else if len(c.Call.Args) == 1 {
+						recv = c.Call.Args[0]
+					}
+					if recv != nil {
+						if nm := namedOf(recv.Type()); nm != nil {
+							kind = "the hash of a *" + nm.Obj().Name()
+							good = nm.Obj().Name() == "shortNode"
+						} else {
+							kind = "the hash of a node of unknown kind"
+						}
+					}
+				}
+				r.Check(good, rule, o.next(fn(f)+"|scheduled hash"), r.P.Pos(st.Pos()), "insert schedules only the shared-prefix node it splits",
+					"insert schedules "+kind+" for collection: a position that is overwritten may get content that hashes as before (an identical re-put of a collapsed value), so the node the new trie refers to is collected after the next two collection passes; whether an overwritten node's hash dies is commit's decision, under its hash-changed test")
+			}
+		})
+	}
+	if n < 1 {
+		r.Anchor(rule, fmt.Errorf("unresolved anchor: no hash scheduled for collection in insert (the split of a shared-prefix node is expected to schedule one)"))
+	}
 }
